@@ -108,6 +108,7 @@ def step (st : St) (j : Json) : St × List String :=
                                savePayloadEventFails := jStr j "save" == "payload", saveTxEventFails := jStr j "save" == "tx" }
     ({ st with s := r.1 }, [if jBool j "quiet" then resStr r.2 else resStr r.2 ++ " | " ++ observe r.1 j])
   | "batch" => (st, ["batch"])
+  | "race" => (st, ["race"])
   | "obs" => (st, ["obs | " ++ observe st.s j])
   | "restart" => let s := restart cfg st.s; ({ st with s := s }, ["restart | " ++ observe s j])
   | "corruptDisk" =>
